@@ -1,6 +1,7 @@
 import Driver.Proto
 import TongoModel.CellFmt
 import TongoModel.TlbRead
+import TongoModel.TlbAlloc
 /-! Line handlers for the modelled TL-B custom decoders of property C08. -/
 namespace Driver
 open Tongo Tongo.Tlb Tongo.CellFmt
@@ -15,7 +16,61 @@ def rootOf (t : String) : Option Cell := (parseTable t).bind Table.root
 /-- the entry check of tlb.decode on the root cell: a library cell without a resolver is an error -/
 def rootLibrary (c : Cell) : Bool := c.ty == tyLibrary
 
+/-- top-of-stack decoder for the allocation lines: the harness only writes `vm_stk_null#00`, `vm_stk_tinyint#01 int64`
+and deliberately invalid tags into the stack cells -/
+def tosSimple : Cell → Bool
+  | .mk ty _ bits _ =>
+    ty == 0 && decide (8 ≤ bits.length) &&
+      (let tag := Bits.bitsToNat (bits.take 8); tag == 0 || (tag == 1 && decide (72 ≤ bits.length)))
+
+/-- allocation class of the model's accounting: `cost` elements against `k` per cell of the unfolded tree -/
+def costClass (cost k cells : Nat) : String := if cost ≤ k * cells then "lin" else "super"
+
+def costOut (r : Tlb.Cost Nat) (k cells : Nat) : String :=
+  match r.1 with
+  | .ok n => s!"ok {n} {costClass r.2 k cells}"
+  | .err _ => s!"err {costClass r.2 k cells}"
+  | .panic _ => "panic"
+
 def opsC08Tlb : List (String × Handler) := [
+  -- the allocation models of TongoModel/TlbAlloc.lean (theorem tlb_custom_alloc) against the measured allocation of
+  -- the real decoders: VmStack.UnmarshalTLB = depth:24 then getStackListItems
+  ("tlb.alloc.stack", fun
+    | [t] => match rootOf t with
+      | some (.mk ty m bits refs) =>
+        if bits.length < 24 then "err lin"
+        else
+          let depth := Bits.bitsToNat (bits.take 24)
+          let c := Cell.mk ty m (bits.drop 24) refs
+          if depth = 0 then "ok 0 lin" else costOut (stackFixed tosSimple c depth) 2 (cellCount c)
+      | none => "bad-op"
+    | _ => "bad-op"),
+  ("tlb.alloc.bintree", fun
+    | [t] => match rootOf t with
+      | some c => costOut (binFixed c) 1 (cellCount c)
+      | none => "bad-op"
+    | _ => "bad-op"),
+  ("tlb.alloc.snake", fun
+    | [t] => match rootOf t with
+      | some c => match (snake false c).1 with
+        | .ok (d, copied) => s!"ok {d.length} {if copied ≤ d.length then "lin" else "super"}"
+        | .err _ => "err lin"
+        | .panic _ => "panic"
+      | none => "bad-op"
+    | _ => "bad-op"),
+  -- the same on deep inputs both sides build themselves: a stack of depth d, a comb of depth d, a chain of d+1 cells
+  ("tlb.alloc.deep", fun
+    | [k, ds] => match ds.toNat? with
+      | some d =>
+        if k == "vmstack" then
+          if d = 0 then "ok 0 lin" else costOut (stackFixed (fun _ => true) (stackChain d) d) 2 (d + 1)
+        else if k == "bintree" then costOut (binFixed (comb d)) 1 (2 * d + 1)
+        else if k == "snake" then if d = 0 then "bad-op" else match (snake false (chain 1016 (d - 1))).1 with
+          | .ok (data, copied) => s!"ok {data.length / 8} {if copied ≤ data.length then "lin" else "super"}"
+          | _ => "err lin"
+        else "bad-op"
+      | none => "bad-op"
+    | _ => "bad-op"),
   ("tlb.label", fun
     | [sz, cp, t] => match intArg sz, cp.toNat?, rootOf t with
       | some size, some cap, some c => match loadLabel size (Rd.ofCell c) [] cap with
